@@ -82,7 +82,6 @@ var c07NotWitness = []string{
 	"underscore in exponent",            // undecided offline (DESIGN 9.4)
 	"stream does not begin with a version marker",
 	"malformed version marker",
-	"minutes out of range",              // binary offsets beyond +-23:59: not a calendar field; undecided
 	"version marker inside a container", // E0 as a wrapper with a bad body is covered by the wrapper rules
 }
 
@@ -356,6 +355,12 @@ func c07BinTokens() [][]byte {
 	ts(0x81, 0x81, 0x81, 0x80, 0x80, 0x80, 0xCA, 0x02, 0xDF, 0xDC, 0x1C, 0x35) // 12345678901 d-10
 	ts(0x81, 0x81, 0x81, 0x80, 0x80, 0x80, 0xCA, 0x02, 0x54, 0x0B, 0xE4, 0x00) // 10^10 d-10
 	ts(0x81, 0x81, 0x81, 0x80, 0x80, 0x80, 0xCB, 0x17, 0x48, 0x76, 0xE8, 0x01) // 10^11+1 d-11
+	// timestamp fields of 2^64-1 (minute, second) and offsets of 24 hours and more
+	add(0x6E, 0x90, 0x80, 0x0F, 0xD7, 0x81, 0x81, 0x85, 0x01, 0x7F, 0x7F, 0x7F, 0x7F, 0x7F, 0x7F, 0x7F, 0x7F, 0xFF)
+	add(0x6E, 0x91, 0x80, 0x0F, 0xD7, 0x81, 0x81, 0x85, 0x85, 0x01, 0x7F, 0x7F, 0x7F, 0x7F, 0x7F, 0x7F, 0x7F, 0x7F, 0xFF)
+	add(0x68, 0x0B, 0xA0, 0x0F, 0xD7, 0x81, 0x81, 0x85, 0x85) // offset +1440
+	add(0x68, 0x4B, 0xA0, 0x0F, 0xD7, 0x81, 0x81, 0x85, 0x85) // offset -1440
+	add(0x68, 0x0B, 0xDC, 0x0F, 0xD7, 0x81, 0x81, 0x85, 0x85) // offset +1500
 	// lengths and IDs of 2^64 and more in ten VarUInt bytes (they do not fit the
 	// reader's 64 bits and must not be taken modulo 2^64), followed by as many bytes
 	// as the truncated number asks for
